@@ -23,7 +23,7 @@ var c08Derivs = []string{"identical", "rename-all", "dup3", "swap", "overwrite-w
 func c08Cases(tier string, seed uint64, flavor string) []lib.Case {
 	n := 400
 	if tier == "thorough" {
-		n = 2000
+		n = 20000
 	}
 	var cases []lib.Case
 	for i := 0; i < n; i++ {
